@@ -1,4 +1,4 @@
-import BumpVerif.Proofs.Init
+import BumpVerif.Proofs.Rewind
 /-! # C11 — a failed initialiser hands back its error and leaves no residue -/
 namespace Bump.C11
 open Bump Gen
@@ -39,6 +39,21 @@ theorem no_residue {E sz al slot} (f : Bool) (s : St) (hE : EnvOK E) (h : ArenaW
     tryFast E (allocTryWith E sz al false [] f s).1.a sz al = .ok (some ((allocMaybe E f sz al s).1.a, slot)) := by
   obtain ⟨h1, h2, _, _, h5, h6⟩ := atw_err_no_residue f s hE h hA hlay slot hok
   exact ⟨h1, h2, h5, h6⟩
+
+/-- **Blocks the initialiser allocated and kept stay valid and untouched**, whatever else it did
+(released blocks, acquired chunks) and whether or not the rewind took place: after a failed
+`alloc_try_with`/`try_alloc_try_with` every block that was live on entry and every block the
+initialiser kept is in the used part of a held chunk, they are pairwise disjoint (so nothing will
+be handed out over them), and the arena wrote no memory (`mem` unchanged: C02). -/
+theorem inner_blocks_kept {E sz al} (inner : List Inner) (f : Bool) (y : Sys) (hE : EnvOK E) (inv : LiveInv E y)
+    (hA : IsPow2 al) (hlay : sz + al ≤ 2 ^ 63) (hin : ∀ i ∈ inner, InnerValid i) (ps : List Nat)
+    (hres : (sysStep E (.atw sz al false inner f) y).2 = .ierr ps) :
+    LiveInv E (sysStep E (.atw sz al false inner f) y).1 ∧
+    (sysStep E (.atw sz al false inner f) y).1.live = y.live ++ keptBlocks inner ps := by
+  have h := (sysStep_live_full hE y (.atw sz al false inner f) inv ⟨hA, hlay, hin⟩).2 (by rw [hres]; simp)
+  refine ⟨h, ?_⟩
+  simp only [sysStep, liveAfter] at hres ⊢
+  rw [hres]
 
 /-- On success the value's slot is the reserved block and the arena is whatever the reservation
 and the initialiser's own allocations left: nothing is rewound. -/
@@ -105,5 +120,6 @@ end Bump.C11
 
 #print axioms Bump.C11.init_not_run_on_alloc_failure
 #print axioms Bump.C11.no_residue
+#print axioms Bump.C11.inner_blocks_kept
 #print axioms Bump.C11.ok_keeps_slot
 #print axioms Bump.C11.fillLoop_spec
